@@ -33,6 +33,13 @@ func allScenarios(tier string) []*mc.Scenario {
 	out = append(out, respScenarios(tier)...)
 	out = append(out, countScenarios(tier)...)
 	out = append(out, cacheScenarios(tier)...)
+	out = append(out, accScenarios(tier)...)
+	out = append(out, isoScenarios(tier)...)
+	out = append(out, queryScenarios(tier)...)
+	out = append(out, thrScenarios(tier)...)
+	out = append(out, ordScenarios(tier)...)
+	out = append(out, gcScenarios(tier)...)
+	out = append(out, discScenarios(tier)...)
 	return out
 }
 
